@@ -63,10 +63,10 @@ def write_sparse(obj, path, holes):
         f.truncate(end)
 
 
-def write_pad(path, size):
+def write_pad(path, size, align=4):
     """A padding object: one retained `.text` section of `size` zero bytes, no symbols."""
     o = G.ElfObject("aarch64")
-    t = o.section(".text", flags=AX | G.SHF_GNU_RETAIN, align=4)
+    t = o.section(".text", flags=AX | G.SHF_GNU_RETAIN, align=align)
     write_sparse(o, path, {t: size})
 
 
@@ -115,11 +115,15 @@ def _link_file(src, dst):
     os.link(src, dst)
 
 
-def build_inputs(d, blocks, kind, form, pad_path, so_path, decoys=False):
+def build_inputs(d, blocks, kind, form, pad_path, so_path, decoys=False, caller_sec="text", text_align=4):
     """Materialise one member in directory `d`. pad_path(size) -> path of the shared pad object of
     that size. With `decoys` the caller has three call sites (decoy_a, callee, decoy_z; the symbol
     `caller` = the entry point is the middle one) to three functions of the callee's kind defined
     together, so that the probe's thunk / PLT entry sits between two others.
+    caller_sec: 'text' (4-byte aligned .text: wild's primary part), 'align32' (a 32-byte aligned
+    .text.c32 section) or 'custom' (section `bar_calls`) - the latter two put the call sites into a
+    non-primary part (not available for the one-object local kind). text_align: alignment of the
+    caller's and a global callee's `.text` section (pad_path must hand out pads aligned alike).
     Returns the input names in command-line order."""
     rtype = FORMS[form][1]
     targets = TRIO if decoys else ("callee",)
@@ -158,10 +162,15 @@ def build_inputs(d, blocks, kind, form, pad_path, so_path, decoys=False):
             continue
         o = G.ElfObject("aarch64")
         if b[0] == "caller":
-            t = o.section(".text", flags=AX, align=4, data=_caller_text(form, decoys))
+            if caller_sec == "text":
+                t = o.section(".text", flags=AX, align=text_align, data=_caller_text(form, decoys))
+            else:
+                o.section(".text", flags=AX | G.SHF_GNU_RETAIN, align=4, data=FILLER)
+                t = o.section(*{"align32": (".text.c32",), "custom": ("bar_calls",)}[caller_sec], flags=AX,
+                              align=32 if caller_sec == "align32" else 4, data=_caller_text(form, decoys))
             add_caller(o, t, {x: o.symbol(x) for x in targets})
         elif kind == "global":
-            add_defs(o, o.section(".text", flags=AX, align=4, data=body))
+            add_defs(o, o.section(".text", flags=AX, align=text_align, data=body))
         elif kind in ("align32", "custom"):
             o.section(".text", flags=AX | G.SHF_GNU_RETAIN, align=4, data=FILLER)
             if kind == "align32":
